@@ -359,6 +359,23 @@ def derived_duration_case(seed: int, idx: int, res: UnitResult) -> None:
                 problem = ("C19:group_by_until:derived-duration:element-on-group-of-other-key", {"group": gk})
             if sum(1 for (t, k, v) in tr if k == "N") > m:
                 problem = problem or ("C19:group_by_until:derived-duration:group-outlived-its-duration", {"group": gk, "elements": len(tr)})
+    term = offered[-1] if offered and offered[-1][1] in "EC" else None
+    if problem is None:
+        esc = [e for e in lab.ev if e[2] in ("escaped", "escaped_sched")]
+        if esc:
+            problem = ("C19:group_by_until:derived-duration:exception-escaped-into-the-source", {"escaped": show(esc[:3])})
+    if problem is None and term is not None:
+        res.count("derived_duration_terminated")
+        tt = top.timed()
+        if not tt or tt[-1][1] != term[1] or tt[-1][0] != term[0]:
+            problem = ("C19:group_by_until:derived-duration:subscriber-not-terminated-with-the-source", {"terminal": show(term), "top_tail": show(tt[-2:])})
+        for (gk, tr) in groups:
+            if problem is None and (not tr or tr[-1][1] not in "EC"):
+                problem = ("C19:group_by_until:derived-duration:group-left-open-after-source-terminal", {"group": gk, "terminal": show(term)})
+            n_el = sum(1 for (t, k, v) in tr if k == "N")
+            if problem is None and n_el < m and tr and tr[-1][1] != term[1]:
+                # a group whose duration has not fired is open when the source terminates: it ends with the source's terminal kind
+                problem = ("C19:group_by_until:derived-duration:open-group-ended-with-other-kind", {"group": gk, "terminal": show(term), "trace": show(tr)})
     if problem:
         problem[1]["case"] = desc
         problem[1]["groups"] = [[k, [[t, kk, show(v)] for (t, kk, v) in tr]] for k, tr in groups]
